@@ -37,11 +37,34 @@ pub fn peel(goal: &Goal<ChalkIr>) -> UCanonical<InEnvironment<Goal<ChalkIr>>> {
     goal.clone().into_peeled_goal(I)
 }
 
-/// fresh solver of the given choice on the given program text; Err(panic site) on panic
+/// Work budgets installed around every solver call the harness makes outside the C09 family (which
+/// has its own): a solver that does not return must end the case with `Err(BUDGET_PANIC)`, not hang the
+/// check.  Steps can be cheap and numerous (an enumeration over several copies of a growing impl takes
+/// > 8000 SLG steps in 0.2 s) or ever heavier (F32, F35: a few thousand steps take minutes), so the
+/// budgets are generous and the sharded checks add a wall-clock limit per shard on top.
+pub const DEFAULT_SLG_BUDGET: u64 = 200_000;
+pub const DEFAULT_REC_BUDGET: u64 = 2_000_000;
+
+/// runs `f` with the default budgets installed in both engines' cfg(chalk_verif) counters
+pub fn with_default_budgets<T>(f: impl FnOnce() -> T) -> T {
+    chalk_recursive::verif::reset_work(Some(DEFAULT_REC_BUDGET));
+    chalk_engine::verif_work::reset(Some(DEFAULT_SLG_BUDGET));
+    let r = f();
+    chalk_recursive::verif::reset_work(None);
+    chalk_engine::verif_work::reset(None);
+    r
+}
+
+/// fresh solver of the given choice on the given program text; Err(panic site) on panic,
+/// Err(BUDGET_PANIC) when the default work budget is exceeded
 pub fn solve_fresh(text: &str, goal: &UCanonical<InEnvironment<Goal<ChalkIr>>>, choice: SolverChoice) -> Result<Option<Solution<ChalkIr>>, String> {
     let db = ChalkDatabase::with(text, choice);
     let goal = goal.clone();
-    catch(std::panic::AssertUnwindSafe(move || db.solve(&goal)))
+    let r = with_default_budgets(|| catch(std::panic::AssertUnwindSafe(move || db.solve(&goal))));
+    match r {
+        Err(site) if site.contains(BUDGET_PANIC) => Err(BUDGET_PANIC.to_string()),
+        r => r,
+    }
 }
 
 /// Payload of the panic raised by the `cfg(chalk_verif)` work counters when a budget is exceeded.
@@ -62,8 +85,9 @@ pub fn solve_fresh_budget(
 
 /// the same on a given (possibly reused) solver instance
 pub fn solve_budget(db: &ChalkDatabase, goal: &UCanonical<InEnvironment<Goal<ChalkIr>>>, budget: Option<u64>) -> Result<Option<Solution<ChalkIr>>, String> {
-    chalk_recursive::verif::reset_work(budget);
-    chalk_engine::verif_work::reset(budget);
+    // `None`: the default budgets (never unlimited: a solver that does not return must not hang the check)
+    chalk_recursive::verif::reset_work(Some(budget.unwrap_or(DEFAULT_REC_BUDGET)));
+    chalk_engine::verif_work::reset(Some(budget.unwrap_or(DEFAULT_SLG_BUDGET)));
     let goal = goal.clone();
     let r = catch(std::panic::AssertUnwindSafe(move || db.solve(&goal)));
     chalk_recursive::verif::reset_work(None);
